@@ -246,7 +246,7 @@ def driver_programs(quick, rnd):
     for kind, m, n, W in spaces:
         N = m * n
         alt = lambda a, b: [a if i % 2 == 0 else b for i in range(N)]
-        leaves = [mkf('L1'), mkf('L2'), mkf('L2sq'), mkf('Const', 0, 3), mkf('Quad', 0, 1, v=[2] * N, u=alt(1, -H)),
+        leaves = [mkf('L1'), mkf('L2'), mkf('L2sq'), mkf('Const', 0, 3), mkf('Const', 0, 0), mkf('Quad', 0, 1, v=[2] * N, u=alt(1, -H)),
                   mkf('Quad', 0, 1, u=alt(1, -H))]
         if kind != 'pspace':
             leaves += [mkf('Huber', (1, 2)), mkf('Huber', 2), mkf('KL', v=alt(1, 2)), mkf('KLcc', v=alt(1, 2))]
